@@ -299,6 +299,11 @@ def apply_contract(fv, c, node, st, spec, recv, closure=False):
         return SV(app, rty)
     if spec or fv.binders:
         fv.err(node, 'call of non-pure %s in a quantified/spec context' % c.qual)
+    # the callee's frame must be within the caller's
+    if fv.c is not None:
+        for mname in c.modifies:
+            if mname.startswith('.') and mname not in fv.c.modifies and '.*' not in fv.c.modifies:
+                fv.oblige(st, 'frame[call %s modifies %s]' % (c.qual.split('.')[-1], mname), z3.BoolVal(False), node)
     # havoc what the callee may modify
     post = State(dict(cst.env), dict(st.heap), st.pc)
     for mname in c.modifies:
@@ -404,6 +409,11 @@ def sf_map_eq(fv, node, st):
     return SV(P.MapEq(a.term, b.term), BOOL)
 
 
+def sf_map_eqv(fv, node, st):
+    a, b = fv.ev(node.args[0], st, True), fv.ev(node.args[1], st, True)
+    return SV(P.MapEqv(a.term, b.term), BOOL)
+
+
 def sf_same(fv, node, st):
     a, b = fv.ev(node.args[0], st, True), fv.ev(node.args[1], st, True)
     return SV(box(a) == box(b), BOOL)
@@ -427,6 +437,11 @@ def sf_drop(fv, node, st):
 def sf_seq_remove(fv, node, st):
     a, x = fv.ev(node.args[0], st, True), fv.ev(node.args[1], st, True)
     return SV(P.seq_remove(a.term, box(x)), a.ty)
+
+
+def sf_restrict(fv, node, st):
+    a, m = fv.ev(node.args[0], st, True), fv.ev(node.args[1], st, True)
+    return SV(P.restrict(a.term, m.term), a.ty)
 
 
 def sf_index_of(fv, node, st):
@@ -527,8 +542,8 @@ def sf_ite(fv, node, st):
 
 SPEC_FORMS = {
     'forall': sf_forall, 'exists': sf_exists, 'implies': sf_implies, 'iff': sf_iff, 'old': sf_old,
-    'keys': sf_keys, 'seq_eq': sf_seq_eq, 'set_eq': sf_set_eq, 'map_eq': sf_map_eq, 'same': sf_same,
-    'nodup': sf_nodup, 'take': sf_take, 'drop': sf_drop, 'seq_remove': sf_seq_remove, 'index_of': sf_index_of,
+    'keys': sf_keys, 'seq_eq': sf_seq_eq, 'set_eq': sf_set_eq, 'map_eq': sf_map_eq, 'map_eqv': sf_map_eqv, 'same': sf_same,
+    'nodup': sf_nodup, 'take': sf_take, 'drop': sf_drop, 'seq_remove': sf_seq_remove, 'index_of': sf_index_of, 'restrict': sf_restrict,
     'mupdate': sf_mupdate, 'put': sf_put, 'rem': sf_rem, 'snoc': sf_snoc, 'set_of': sf_set_of, 'elems': sf_elems,
     'empty_map': sf_empty_map, 'empty_seq': sf_empty_seq, 'empty_set': sf_empty_set, 'typed': sf_typed,
     'cast': sf_cast, 'truthy': sf_truthy, 'fresh': sf_fresh, 'allocated': sf_allocated,
@@ -630,6 +645,11 @@ def bi_isinstance(fv, node, st, spec):
     vt = v.ty.strip_opt()
     if vt.kind in ('obj', 'any'):
         r = z3.And(P.tag(v.term) == P.TAG_OBJ, fv.isinstance_term(v.term, names))
+        return SV(r, BOOL)
+    if vt.kind == 'abs':
+        # values of an abstract sort: class membership is an uninterpreted predicate per class
+        rs = [z3.Function('isinst!' + n, P.V, z3.BoolSort())(v.term) for n in names]
+        r = z3.And(v.term != P.none, z3.Or(*rs))
         return SV(r, BOOL)
     return SV(z3.BoolVal(False), BOOL)
 
